@@ -288,17 +288,17 @@ def glue_level_eval(ck, glue_cases, glue_meta, tag='wg'):
     for i in inside:
         m = glue_meta[i]
         ck.count(1, f'end-to-end-domain c_reuse={m["c_reuse"]} strip_forks={m["strip_forks"]}')
-    bad = {i: code for i, code in codes_of.items() if code & 6}
+    bad = {i: code for i, code in codes_of.items() if code & 30}
     ns = sum(1 for i in inside if glue_meta[i]['strip_forks'])
     nr = sum(1 for i in inside if glue_meta[i]['c_reuse'])
-    for j in (1, 2):
+    for j in (1, 2, 3, 4):
         hit = [i for i, code in bad.items() if code >> j & 1]
         ck.obligation(f'{wc.GLUE_CHECKS[j]}: {len(inside)} lanes inside the proved domain ({nr} with c_reuse, {ns} with strip_forks; '
                       f'{len(outside)} outside)', allok and not hit, 'correspondence', f'failing cases {hit[:10]}')
     out = []
     for i in sorted(bad):
         m = dict(glue_meta[i])
-        m['glue_failed'] = [wc.GLUE_CHECKS[j] for j in (1, 2) if bad[i] >> j & 1]
+        m['glue_failed'] = [wc.GLUE_CHECKS[j] for j in (1, 2, 3, 4) if bad[i] >> j & 1]
         out.append(m)
     return out
 
